@@ -17,6 +17,7 @@ import (
 	"bufio"
 	"bytes"
 	"encoding/base64"
+	"encoding/binary"
 	"encoding/hex"
 	"encoding/json"
 	"fmt"
@@ -34,6 +35,7 @@ import (
 	"github.com/skycoin/skycoin/src/cipher/bip44"
 	"github.com/skycoin/skycoin/src/cipher/crypto"
 	"github.com/skycoin/skycoin/src/cipher/encrypt"
+	secp256k1 "github.com/skycoin/skycoin/src/cipher/secp256k1-go"
 	"github.com/skycoin/skycoin/src/util/logging"
 	"github.com/skycoin/skycoin/src/wallet"
 	_ "github.com/skycoin/skycoin/src/wallet/bip44wallet"
@@ -534,10 +536,18 @@ func genDecrypt() {
 		if err != nil {
 			log.Fatal(err)
 		}
-		how := rng.Intn(9)
+		how := rng.Intn(10)
 		in := append([]byte{}, ct...)
 		usePw := pw
 		switch how {
+		case 9:
+			// a well-formed container (right checksum, right password) around a body that Encrypt never makes:
+			// no length field, a length beyond the data, no block at all, a body that is not a multiple of the block size
+			if name == "sha256-xor" {
+				in = xorContainer(oddBody(data), pw)
+			} else {
+				in = in[:len(in)/2]
+			}
 		case 0: // untouched
 		case 1:
 			in = in[:rng.Intn(len(in))]
@@ -585,6 +595,63 @@ func genDecrypt() {
 		emit(rec{"fn": "decrypt", "cipher": name, "how": how, "len": len(in), "panic": pan, "panicMsg": panMsg, "input": string(in), "err": derr != nil,
 			"plaintext": derr == nil && !pan && bytes.Equal(out, data), "untouched": how == 0})
 	}
+}
+
+// the decrypted body of a sha256-xor container: hash of the rest, 4-byte length, data, padding
+func oddBody(data []byte) []byte {
+	le := func(n uint32) []byte { return []byte{byte(n), byte(n >> 8), byte(n >> 16), byte(n >> 24)} }
+	var rest []byte
+	switch rng.Intn(7) {
+	case 0: // nothing behind the hash
+	case 1: // a cut length field
+		rest = le(uint32(len(data)))[:1+rng.Intn(3)]
+	case 2: // a length beyond the data
+		rest = append(le(uint32(len(data)+1+rng.Intn(1000))), data...)
+	case 3: // the largest length
+		rest = append(le(0xffffffff), data...)
+	case 4: // length zero, data present
+		rest = append(le(0), data...)
+	case 5: // correct
+		rest = append(le(uint32(len(data))), data...)
+	case 6:
+		return []byte{} // not even a hash
+	}
+	h := cipher.SumSHA256(rest)
+	body := append(h[:], rest...)
+	if rng.Intn(3) > 0 { // padded to the block size, as Encrypt does - or not
+		for len(body)%32 != 0 {
+			body = append(body, 0)
+		}
+	}
+	return body
+}
+
+// sha256-xor container around an arbitrary body, built from the documented format: base64(SHA256(nonce|blocks) | nonce | blocks),
+// block i = body block i XOR (Secp256k1Hash(password) + SHA256(varint(i) padded to 32 | SHA256(nonce)))
+func xorContainer(body, pw []byte) []byte {
+	key := secp256k1.Secp256k1Hash(pw)
+	nonce := make([]byte, 32)
+	rng.Read(nonce)
+	nh := cipher.SumSHA256(nonce)
+	var blocks []byte
+	for i := 0; i*32 < len(body); i++ {
+		idx := make([]byte, 32)
+		binary.PutVarint(idx, int64(i))
+		inh := cipher.SumSHA256(append(idx, nh[:]...))
+		var kh cipher.SHA256
+		copy(kh[:], key)
+		ks := cipher.AddSHA256(kh, inh)
+		end := (i + 1) * 32
+		if end > len(body) {
+			end = len(body)
+		}
+		for j, b := range body[i*32 : end] {
+			blocks = append(blocks, b^ks[j])
+		}
+	}
+	rest := append(append([]byte{}, nonce...), blocks...)
+	sum := cipher.SumSHA256(rest)
+	return []byte(base64.StdEncoding.EncodeToString(append(sum[:], rest...)))
 }
 
 func main() {
